@@ -5,6 +5,7 @@
    [dom_ok]: positive prices and amounts, orders not over-filled on entry (any partial fill state).
    All theorems quantify over every list of orders (any length, prices, amounts, batch ids, keys). *)
 From Comdex Require Import Lib.Base Lib.DecArith Model.AMM Proofs.AMMProofs.
+From Comdex Require Model.Liquidity Model.LiquidityMatch Proofs.LiquidityMatchProofs.
 
 (* per fill, all prices and amounts: a buy pays ceil(p*a), a sell receives floor(p*a), each within
    one quote unit of the exact value; the FillOrder guard keeps open >= 0 and paid <= offer *)
@@ -132,3 +133,46 @@ Proof. repeat constructor; cbn; lia. Qed.
 Example ex_fill : exists o', fill_order (fresh 0 Buy ex_price 10 10 1 1) 4 ex_price = Some o' /\ o_recv o' = 4.
 Proof. eexists. split; vm_compute; reflexivity. Qed.
 Example ex_witness_dom : dom_ok witness_F1 price_001 = true. Proof. reflexivity. Qed.
+
+(* ---------- through the keeper: an order carried over from earlier batches ----------
+   ExecuteMatching hands every stored order to the engine as the amm order NewUserOrder builds from its record
+   ([LiquidityMatch.amm_order]: amount = min(open amount, what the REMAINING offer coin buys), offer coin bound =
+   the REMAINING offer coin).  Whatever else is on the book (other stored orders, pool orders, any last price),
+   the engine's fill of each stored order - read off its result by [fill_of] - satisfies [holds_C05_life] against
+   the stored record: matched amount <= open amount, payment <= remaining offer coin, a sell pays what it sells.
+   [holds_C05_life] is the extracted predicate the runner evaluates on the implementation's fills (the engine's,
+   observed through the real NewUserOrder / keeper.Match before each EndBlocker, and the applied ones). *)
+Theorem c05_keeper_fill_bound : forall (os : list Liquidity.order) pool lp r,
+  dom_ok (LiquidityMatch.amm_orders O os ++ pool) lp = true ->
+  run_match (LiquidityMatch.amm_orders O os ++ pool) lp = Some r ->
+  forall i o, nth_error os i = Some o ->
+  exists a', nth_error (r_orders r) i = Some a' /\
+    let '(m, p, rc) := LiquidityMatch.fill_of o a' in Liquidity.holds_C05_life o m p rc = true.
+Proof. exact LiquidityMatchProofs.keeper_fill_bound. Qed.
+Print Assumptions c05_keeper_fill_bound.
+
+(* non-vacuity: a stored buy of 1000 at 1.234 (offer 1234) of which 500 were filled for 617 in an earlier batch
+   (617 left, 500 open), the last price meanwhile at 1.27, and three sells of 100 / 150 / 250 on the ticks 1.232 /
+   1.233 / 1.234 in the current batch: the buy is filled three times at its own price, each fill rounded up
+   (124 + 186 + 307); the third fill is cut to 248 so that the payment is exactly the 617 that were left *)
+Definition kb : Liquidity.order := Liquidity.mkOrder 1 1 1 50 true 1 2 1 1234 617 500 1234000000000000000 1000 500 1 100 3.
+Definition ks (id price amt : Z) : Liquidity.order := Liquidity.mkOrder 1 1 id 51 false 1 1 2 amt amt 0 price amt amt 3 100 1.
+Definition kos : list Liquidity.order := [kb; ks 2 1232000000000000000 100; ks 3 1233000000000000000 150; ks 4 1234000000000000000 250].
+Definition klp : Z := 1270000000000000000.
+Example c05_keeper_fill_bound_ex :
+  dom_ok (LiquidityMatch.amm_orders O kos ++ []) klp = true /\
+  option_map (fun r => map (fun o => (o_open o, o_paid o, o_recv o)) (r_orders r)) (run_match (LiquidityMatch.amm_orders O kos ++ []) klp)
+  = Some [(2, 617, 498); (0, 100, 123); (0, 150, 185); (2, 248, 306)].
+Proof. split; vm_compute; reflexivity. Qed.
+
+(* the REMAINING offer coin is what makes the bound hold: the same book with the carried-over buy handed over
+   with its ORIGINAL offer coin (1234) as the bound pays 124 + 186 + 309 = 619 for it - more than the 617 it has
+   left; at keeper level RemainingOfferCoin.Sub then panics and the whole batch of the app is rolled back *)
+Theorem c05_keeper_needs_remaining :
+  let book := LiquidityMatch.amm_order_original O kb :: LiquidityMatch.amm_orders 1 (tl kos) in
+  dom_ok book klp = true /\
+  exists r a', run_match book klp = Some r /\ nth_error (r_orders r) 0 = Some a' /\
+    o_paid a' = 619 /\ Liquidity.o_rem kb = 617 /\
+    (let '(m, p, rc) := LiquidityMatch.fill_of kb a' in Liquidity.holds_C05_life kb m p rc) = false.
+Proof. split; [vm_compute; reflexivity|]. eexists. eexists. split; [vm_compute; reflexivity|]. repeat split; vm_compute; reflexivity. Qed.
+Print Assumptions c05_keeper_needs_remaining.
